@@ -60,6 +60,11 @@ def _rules():
         "content": [
             lambda R, c, rid: shared.content_tables(R, c, rid),
         ],
+        "export": [
+            lambda R, c, rid: c06.rule_b(R, c, rid),
+            lambda R, c, rid: c06.rule_e(R, c, rid),
+            lambda R, c, rid: c06.rule_f(R, c, rid),
+        ],
         "flags": [
             lambda R, c, rid: preds.rule(R, c, rid, ["flags_check"]),
             lambda R, c, rid: preds.flag_table(R, c, rid),
@@ -69,22 +74,22 @@ def _rules():
 
 # property -> mechanisms it depends on *in addition to* the clauses its own module already runs
 DEPENDS = {
-    "C01": ["squash", "splice", "partial", "flags", "stash-deletes", "lookup", "content"],
-    "C02": ["stash-deletes", "lookup"],
+    "C01": ["squash", "splice", "partial", "flags", "stash-deletes", "lookup", "content", "export"],
+    "C02": ["stash-deletes", "lookup", "export"],
     "C03": ["splice", "conflict", "lookup", "content"],
     "C04": ["splice", "dependency", "stash-deletes", "lookup", "content"],
     "C05": ["conflict", "squash", "splice", "dependency"],
     "C06": ["dependency", "delete-set", "slice", "partial", "lookup", "content"],
-    "C07": ["delete-set", "slice", "partial"],
+    "C07": ["delete-set", "slice", "partial", "export"],
     "C08": ["slice", "delete-set", "partial"],
     "C09": ["slice", "partial", "content"],
     "C12": ["splice", "squash", "lookup"],
-    "C13": ["splice", "delete-set", "lookup", "content"],
+    "C13": ["splice", "delete-set", "lookup", "content", "export"],
     "C14": ["splice", "liveness", "lookup"],
     "C15": ["squash", "splice", "content"],
     "C16": ["delete-set"],
     "C17": ["flags", "content"],
-    "C18": ["dependency", "stash-deletes", "partial"],
+    "C18": ["dependency", "stash-deletes", "partial", "export"],
     "C20": ["dependency", "splice", "squash", "lookup"],
 }
 
